@@ -156,6 +156,10 @@ impl LZ13CompressionFormat {
         // First, create the header.
         let mut result: Vec<u8> = Vec::new();
         let length = bytes.len();
+        // The extended LZ11 header stores the decompressed size in 32 bits.
+        if length as u64 > 0xFFFF_FFFF {
+            return Err(CompressionError::InputTooLarge(length, "LZ13".to_owned()));
+        }
         let lz13_length = calculate_lz13_header(bytes)?;
         result.reserve(12 + length + ((length + 7) >> 3)); // For performance, reserve space to avoid resizing.
         result.push(0x13);
